@@ -359,3 +359,32 @@ M("dm14_intruder_resets_server", ["C19"], "a busy answer resets the running tran
   ("j1939/Dm14Server.py", "            self.set_busy(False)\n            return\n\n        self.length = len(data)", "            self.set_busy(False)\n            self.sa = None\n            return\n\n        self.length = len(data)"))
 M("dm14_wait_complete_any_sender", ["C19"], "closing DM14 accepted from any sender",
   ("j1939/Dm14Server.py", "            (self.sa is not None and sa != self.sa)\n            or (", "            (self.sa is not None and sa != self.sa and self.state != ResponseState.WAIT_OPERATION_COMPLETE)\n            or ("))
+
+
+# ----------------------------------------------------------------------------------------------
+# Benign refactorings: the property still holds, so NO check may raise an alarm (expect = [] means "must survive all").
+BENIGN = {}
+
+
+def Bn(name, doc, *edits):
+    BENIGN[name] = {"doc": doc, "edits": list(edits), "expect": []}
+    MUTANTS[name] = BENIGN[name]
+
+
+Bn("benign_monotonic_clock", "time.monotonic() instead of time.time() everywhere",
+   ("j1939/electronic_control_unit.py", "import time\n", "import time as _time_mod\n\nclass _T:\n    time = staticmethod(lambda: _time_mod.monotonic())\n\ntime = _T\n"))
+Bn("benign_from_time_import", "from time import time (function imported by name) in the J1939-21 layer",
+   ("j1939/j1939_21.py", "import logging\nimport time\n", "import logging\nfrom time import time as _now\n\nclass time:\n    time = staticmethod(lambda: _now())\n"))
+Bn("benign_simplequeue", "queue.SimpleQueue for the job-thread wake-up",
+   ("j1939/electronic_control_unit.py", "self._job_thread_wakeup_queue = queue.Queue()", "self._job_thread_wakeup_queue = queue.SimpleQueue()"))
+Bn("benign_thread_subclass", "job thread as a Thread subclass",
+   ("j1939/electronic_control_unit.py", "        self._job_thread = threading.Thread(target=self._async_job_thread, name='j1939.ecu job_thread')",
+    "        ecu = self\n\n        class _Job(threading.Thread):\n            def run(self):\n                ecu._async_job_thread()\n        self._job_thread = _Job(name='j1939.ecu job_thread')"))
+Bn("benign_shorter_idle_sleep", "idle wake-up every 1 s instead of 5 s (both layers)",
+   ("j1939/j1939_21.py", "        next_wakeup = now + 5.0 # wakeup in 5 seconds", "        next_wakeup = now + 1.0 # wakeup in 1 second"),
+   ("j1939/j1939_22.py", "        next_wakeup = now + 5.0 # wakeup in 5 seconds", "        next_wakeup = now + 1.0 # wakeup in 1 second"))
+Bn("benign_extra_wakeups", "redundant job-thread wake-up after every received TP.DT (J1939-22 had it commented out)",
+   ("j1939/j1939_22.py", "        #self.__job_thread_wakeup()", "        self.__job_thread_wakeup()"))
+Bn("benign_eager_session_cleanup", "J1939-21: send session removed in the EndOfMsgACK handler's job pass without waiting (deadline already now) - reorder of two assignments",
+   ("j1939/j1939_21.py", "            self._snd_buffer[buffer_hash]['state'] = self.SendBufferState.TRANSMISSION_FINISHED\n            self._snd_buffer[buffer_hash]['deadline'] = time.time()\n            self.__job_thread_wakeup()\n        elif control_byte == self.ConnectionMode.BAM:",
+    "            self._snd_buffer[buffer_hash]['deadline'] = time.time()\n            self._snd_buffer[buffer_hash]['state'] = self.SendBufferState.TRANSMISSION_FINISHED\n            self.__job_thread_wakeup()\n        elif control_byte == self.ConnectionMode.BAM:"))
